@@ -236,6 +236,15 @@ impl InvalidProof {
         }
     }
 
+    fn audit_path_too_long(segments: usize, max_segments: usize) -> Self {
+        Self {
+            kind: InvalidProofKind::AuditPathTooLong {
+                segments,
+                max_segments,
+            },
+        }
+    }
+
     fn zero_tree_size() -> Self {
         Self {
             kind: InvalidProofKind::ZeroTreeSize,
@@ -260,6 +269,10 @@ enum InvalidProofKind {
     AuditPathNotMultipleOf32 {
         len: usize,
     },
+    AuditPathTooLong {
+        segments: usize,
+        max_segments: usize,
+    },
     LeafIndexOutsideTree {
         leaf_index: usize,
         tree_size: NonZeroUsize,
@@ -278,13 +291,22 @@ impl std::fmt::Display for InvalidProofKind {
             InvalidProofKind::LeafIndexOutsideTree {
                 leaf_index,
                 tree_size,
-            } => {
-                let tree_index = crate::leaf_index_to_tree_index(*leaf_index);
-                f.write_fmt(format_args!(
+            } => match leaf_index.checked_mul(2) {
+                Some(tree_index) => f.write_fmt(format_args!(
                     "leaf index {leaf_index} corresponding to tree index {tree_index} exceeds \
                      tree of size {tree_size}"
-                ))
-            }
+                )),
+                None => f.write_fmt(format_args!(
+                    "leaf index {leaf_index} exceeds tree of size {tree_size}"
+                )),
+            },
+            InvalidProofKind::AuditPathTooLong {
+                segments,
+                max_segments,
+            } => f.write_fmt(format_args!(
+                "audit path has {segments} segments, but the leaf has only {max_segments} \
+                 ancestors in the tree"
+            )),
             InvalidProofKind::ZeroTreeSize => f.pad("proof is undefined for trees of size zero"),
         }
     }
@@ -300,7 +322,7 @@ impl std::error::Error for InvalidProofKind {}
 /// ```rust
 /// use astria_merkle::Proof;
 /// let proof = Proof::unchecked()
-///     .audit_path(vec![42u8; 128])
+///     .audit_path(vec![42u8; 96])
 ///     .leaf_index(3)
 ///     .tree_size(15)
 ///     .try_into_proof()
@@ -323,13 +345,13 @@ impl UncheckedProof {
     ///
     /// The `audit_path` byte buffer's length must be a multiple of 32.
     ///
-    /// The builder does not currently verify that the length of the audit path
-    /// is plausible, i.e. that it has exactly the right number of segments
-    /// for walking the path from the leaf index to the root for a tree of
-    /// the given size.
+    /// The builder verifies that the audit path does not have more segments than
+    /// there are ancestors of the leaf in a tree of the given size, but it does not
+    /// verify that it has exactly the right number of segments for walking the path
+    /// from the leaf index to the root.
     ///
-    /// This will simply result in an incorrect Merkle Tree Hash being reconstructed
-    /// from the proof.
+    /// A path that is too short will simply result in an incorrect Merkle Tree Hash
+    /// being reconstructed from the proof.
     #[must_use = "an unchecked proof must be turned into a checked proof to be useful"]
     pub fn audit_path(self, audit_path: Vec<u8>) -> Self {
         Self {
@@ -390,6 +412,17 @@ impl UncheckedProof {
             return Err(InvalidProof::audit_path_not_multiple_of_32(
                 audit_path.len(),
             ));
+        }
+
+        // Walking the audit path must never leave the tree: a path with more segments
+        // than the leaf has ancestors can never reconstruct the root.
+        let segments = audit_path.len() / 32;
+        let max_segments = crate::number_of_ancestors(
+            crate::leaf_index_to_tree_index(leaf_index),
+            tree_size.get(),
+        );
+        if segments > max_segments {
+            return Err(InvalidProof::audit_path_too_long(segments, max_segments));
         }
 
         Ok(Proof {
